@@ -112,19 +112,19 @@ def _judge_scripted(case, obs, predrawn=None, stats=None):
     n_steps = n + w
     p0 = np.array(P0[dim])
     ans = obs['ans']
-    info = {'answers': _fmt(ans), 'n_samples': n, 'warmup': w}
+    info = {'answers': _fmt(ans), 'n_samples': n, 'warmup': w} if (obs['exc'] is not None or stats is None) else {}
     if obs['exc'] is not None:
         name, site, text = obs['exc']
         if name == 'too-many-points':
             return ('C09:metropolis:evaluates-more-points-than-proposals', dict(info, what=text))
         return ('C09:exception:%s@%s' % (name, site), dict(info, exception=text))
     got = np.asarray(obs['got'])
-    info['returned'] = _fmt(got)
     if got.shape != (n, dim):
+        info.update(answers=_fmt(ans), n_samples=n, warmup=w, returned=_fmt(got))
         return ('C09:metropolis:wrong-number-of-states', dict(info, shape=list(got.shape), expected=[n, dim]))
     pts = obs['pts']
     if len(pts) == 0 or pts[0].tobytes() != p0.tobytes():
-        return ('C09:metropolis:start-not-evaluated-first', info)
+        return ('C09:metropolis:start-not-evaluated-first', dict(info, answers=_fmt(ans)))
 
     # ---- fast path: bit-identical with the reference in draw order A (the order read from the implementation)
     Z, U = predrawn if predrawn is not None else R.predraw_A(seed, dim, n_steps)
@@ -148,7 +148,7 @@ def _judge_scripted(case, obs, predrawn=None, stats=None):
                     mask |= 1 << k
                     tcur = obs['idx'][k + 1]
             stats['states'].add((key0, n_steps, mask, tcur))
-            stats['accepted'] += sum(acc)
+            stats['accepted'] += int(sum(acc))
             stats['rejected_nonfinite'] += sum(1 for k in range(n_steps) if not math.isfinite(full[k + 1]))
             stats['rejected_by_u'] += sum(1 for k in range(n_steps) if math.isfinite(full[k + 1]) and not acc[k])
             stats['outcomes'].add(got.tobytes())
@@ -167,6 +167,7 @@ def _judge_scripted(case, obs, predrawn=None, stats=None):
             return None
 
     # ---- classify by the direct statement invariants (stream independent)
+    info.update(answers=_fmt(ans), n_samples=n, warmup=w, returned=_fmt(got))
     info['reference'] = _fmt(states[w:])
     info['reference_accepts'] = [bool(a) for a in acc]
     info['uniforms'] = _fmt(U)
